@@ -131,3 +131,86 @@ pub fn cmd_run(args: &[String]) -> i32 {
     println!("{}", json!({"runs": n, "panics": panics}));
     0
 }
+
+/// `c13 classify <out.ndjson>`: which failures of one execution end a speculative call at once (definitive) and which are
+/// passed over while another execution may still succeed (ignorable). For every constructible error E the real `execute`
+/// runs two executions under the paused clock — the original fails with E at t = 1, the speculative one succeeds at t = 5 —
+/// and the harness records what the call returned and when. One output line per error: {"name":..,"result":"Ok"|"Err","t":..}
+pub fn cmd_classify(args: &[String]) -> i32 {
+    use scylla::errors::{BrokenConnectionErrorKind, ConnectionPoolError};
+    use scylla::statement::Consistency;
+    if args.len() != 1 {
+        eprintln!("usage: vh-driver c13 classify <out.ndjson>");
+        return 2;
+    }
+    let db = |e: DbError| RequestError::LastAttemptError(RequestAttemptError::DbError(e, "x".into()));
+    let cl = Consistency::Quorum;
+    let table: Vec<(&str, Box<dyn Fn() -> RequestError>)> = vec![
+        ("SyntaxError", Box::new(move || db(DbError::SyntaxError))),
+        ("Invalid", Box::new(move || db(DbError::Invalid))),
+        ("AlreadyExists", Box::new(move || db(DbError::AlreadyExists { keyspace: "k".into(), table: "t".into() }))),
+        ("Unauthorized", Box::new(move || db(DbError::Unauthorized))),
+        ("ProtocolError", Box::new(move || db(DbError::ProtocolError))),
+        ("AuthenticationError", Box::new(move || db(DbError::AuthenticationError))),
+        ("Other", Box::new(move || db(DbError::Other(0x7777)))),
+        ("FunctionFailure", Box::new(move || db(DbError::FunctionFailure { keyspace: "k".into(), function: "f".into(), arg_types: vec![] }))),
+        ("ConfigError", Box::new(move || db(DbError::ConfigError))),
+        ("TruncateError", Box::new(move || db(DbError::TruncateError))),
+        ("Unavailable", Box::new(move || db(DbError::Unavailable { consistency: cl, required: 2, alive: 1 }))),
+        ("Overloaded", Box::new(move || db(DbError::Overloaded))),
+        ("IsBootstrapping", Box::new(move || db(DbError::IsBootstrapping))),
+        ("ReadTimeout", Box::new(move || db(DbError::ReadTimeout { consistency: cl, received: 1, required: 2, data_present: false }))),
+        ("WriteTimeout", Box::new(move || db(DbError::WriteTimeout { consistency: cl, received: 1, required: 2, write_type: scylla::errors::WriteType::Simple }))),
+        ("ReadFailure", Box::new(move || db(DbError::ReadFailure { consistency: cl, received: 1, required: 2, numfailures: 1, data_present: false }))),
+        ("WriteFailure", Box::new(move || db(DbError::WriteFailure { consistency: cl, received: 1, required: 2, numfailures: 1, write_type: scylla::errors::WriteType::Simple }))),
+        ("Unprepared", Box::new(move || db(DbError::Unprepared { statement_id: vec![1u8, 2].into() }))),
+        ("ServerError", Box::new(move || db(DbError::ServerError))),
+        ("RateLimitReached", Box::new(move || db(DbError::RateLimitReached { op_type: scylla::errors::OperationType::Read, rejected_by_coordinator: false }))),
+        ("UnableToAllocStreamId", Box::new(|| RequestError::LastAttemptError(RequestAttemptError::UnableToAllocStreamId))),
+        ("BrokenConnection", Box::new(|| RequestError::LastAttemptError(RequestAttemptError::BrokenConnectionError(BrokenConnectionErrorKind::ChannelError.into())))),
+        ("RepreparedIdMissingInBatch", Box::new(|| RequestError::LastAttemptError(RequestAttemptError::RepreparedIdMissingInBatch))),
+        ("NonfinishedPagingState", Box::new(|| RequestError::LastAttemptError(RequestAttemptError::NonfinishedPagingState))),
+        ("EmptyPlan", Box::new(|| RequestError::EmptyPlan)),
+        ("RequestTimeout", Box::new(|| RequestError::RequestTimeout(Duration::from_secs(1)))),
+        ("PoolInitializing", Box::new(|| RequestError::ConnectionPoolError(ConnectionPoolError::Initializing))),
+        ("PoolNodeDisabledByHostFilter", Box::new(|| RequestError::ConnectionPoolError(ConnectionPoolError::NodeDisabledByHostFilter))),
+    ];
+    let mut out = match std::fs::File::create(&args[0]) {
+        Ok(f) => std::io::BufWriter::new(f),
+        Err(e) => {
+            eprintln!("create {}: {e}", args[0]);
+            return 2;
+        }
+    };
+    for (name, mk) in &table {
+        let rt = tokio::runtime::Builder::new_current_thread().enable_time().start_paused(true).build().unwrap();
+        let (result, t) = rt.block_on(async {
+            let t0 = tokio::time::Instant::now();
+            let counter = Rc::new(RefCell::new(0usize));
+            let generator = |_is_spec: bool| {
+                let i = {
+                    let mut c = counter.borrow_mut();
+                    let i = *c;
+                    *c += 1;
+                    i
+                };
+                let e = if i == 0 { Some(mk()) } else { None };
+                async move {
+                    tokio::time::sleep(Duration::from_millis(if i == 0 { 1 } else { 4 } * UNIT_MS)).await;
+                    match e {
+                        Some(e) => Some(Err(e)),
+                        None => Some(Ok(i)),
+                    }
+                }
+            };
+            let res = execute(1, Duration::from_millis(UNIT_MS), generator).await;
+            ((if res.is_ok() { "Ok" } else { "Err" }).to_string(), (t0.elapsed().as_millis() as u64) / UNIT_MS)
+        });
+        if writeln!(out, "{}", json!({"name": name, "result": result, "t": t})).is_err() {
+            return 2;
+        }
+    }
+    let _ = out.flush();
+    println!("{}", json!({"cmd": "c13-classify", "lines": table.len()}));
+    0
+}
